@@ -174,6 +174,18 @@ def run_job(job):
         out.append(trajectory(env, job["np_seed"], job["plan_seed"],
                               job["steps"]))
         if len(set(out)) == 1:
+            # a deep copy of the environment is an environment: the same
+            # seeded trajectory on the copy
+            import copy
+            try:
+                env2 = copy.deepcopy(env)
+            except Exception as e:
+                out.append("EXC:deepcopy:" + type(e).__name__)
+                return out
+            env2.reset()
+            out.append(trajectory(env2, job["np_seed"], job["plan_seed"],
+                                  job["steps"]))
+        if len(set(out)) == 1:
             # planner-style use: the same seeded look-ahead replayed twice
             # from one kept checkpoint (digests are only compared with each
             # other, so they get their own prefix)
